@@ -20,6 +20,8 @@
 #include <boost/mpl/pop_front.hpp>
 #include <boost/mpl/for_each.hpp>
 #include <boost/mpl/advance.hpp>
+#include <boost/mpl/and.hpp>
+#include <boost/mpl/not.hpp>
 
 #include <boost/type_traits/is_base_of.hpp>
 #include <boost/type_traits/is_same.hpp>
@@ -379,7 +381,11 @@ struct dispatch_table
                         ::boost::mpl::filter_view
                             <Stt, boost::mpl::or_<
                                     ::boost::is_base_of<transition_event< ::boost::mpl::placeholders::_>, Event>,
-                                    ::boost::msm::is_kleene_event<transition_event< ::boost::mpl::placeholders::_> >
+                                    // a Kleene transition has a trigger: it is not a candidate for the completion event
+                                    ::boost::mpl::and_<
+                                        ::boost::msm::is_kleene_event<transition_event< ::boost::mpl::placeholders::_> >,
+                                        ::boost::mpl::not_<typename is_completion_event<Event>::type>
+                                    >
                                     >
                             >,
                         // build a map
